@@ -529,6 +529,135 @@ fn inside(outer: &[u8], inner: &[u8]) -> bool {
     i >= o && i + inner.len() <= o + outer.len()
 }
 
+/// random access in steady state: after one sequential pass, `seek` to the position of a record that has
+/// been read before and read it again. The read after the seek must not allocate (the seek itself is
+/// not measured), the capacity must stay.
+fn c18_after_seek(ctx: &Ctx, rep: &mut Report, idx: u64, fmt: Fmt, rng: &mut Rng) {
+    let cap = *rng.pick(&[256usize, 1000, 4096, 65536]);
+    let n = 120 + rng.below(200);
+    let mut input = vec![];
+    for i in 0..n {
+        let l = 5 + rng.below(60);
+        match fmt {
+            Fmt::Fasta => {
+                input.extend_from_slice(format!(">r{} d\n", i).as_bytes());
+                for _ in 0..1 + rng.below(3) {
+                    input.extend((0..l).map(|k| b"ACGT"[k % 4]));
+                    input.push(b'\n');
+                }
+            }
+            Fmt::Fastq => {
+                input.extend_from_slice(format!("@r{} d\n", i).as_bytes());
+                input.extend((0..l).map(|k| b"ACGT"[k % 4]));
+                input.extend_from_slice(b"\n+\n");
+                input.extend((0..l).map(|_| b'I'));
+                input.push(b'\n');
+            }
+        }
+    }
+    let r = fmt.reference(&input);
+    let lookups = 150;
+    let targets: Vec<usize> = (0..lookups).map(|_| rng.below(r.recs.len())).collect();
+    rep.evaluations += 1;
+    let mut j = ctx.replay_json(idx);
+    j["format"] = json!(fmt.name());
+    j["capacity"] = json!(cap);
+    j["mode"] = json!("seek, then read, after one sequential pass");
+    // (allocator calls in the reads after seeks, capacity changed, wrong records)
+    let res = guarded(|| -> Result<(u64, bool, usize), String> {
+        let mut allocs = 0u64;
+        let mut wrong = 0usize;
+        match fmt {
+            Fmt::Fasta => {
+                let mut rdr = fasta::Reader::with_capacity(std::io::Cursor::new(&input[..]), cap);
+                while let Some(x) = rdr.next() {
+                    x.map_err(|e| e.to_string())?;
+                }
+                // two unmeasured lookups (the first seek after the end of input)
+                for &t in targets.iter().take(2) {
+                    rdr.seek(&fasta::Position::new(r.recs[t].line, r.recs[t].byte)).map_err(|e| e.to_string())?;
+                    let _ = rdr.next();
+                }
+                let cap0 = rdr.verif_capacity();
+                for &t in &targets {
+                    rdr.seek(&fasta::Position::new(r.recs[t].line, r.recs[t].byte)).map_err(|e| e.to_string())?;
+                    crate::alloc::arm();
+                    let ok = match rdr.next() {
+                        Some(Ok(rec)) => {
+                            let mut l = 0;
+                            for line in rec.seq_lines() {
+                                l += line.len();
+                            }
+                            std::hint::black_box(l);
+                            rec.head() == &r.recs[t].head[..]
+                        }
+                        _ => false,
+                    };
+                    let (a, re, _) = crate::alloc::disarm();
+                    allocs += a + re;
+                    if !ok {
+                        wrong += 1;
+                    }
+                }
+                Ok((allocs, rdr.verif_capacity() != cap0, wrong))
+            }
+            Fmt::Fastq => {
+                let mut rdr = fastq::Reader::with_capacity(std::io::Cursor::new(&input[..]), cap);
+                while let Some(x) = rdr.next() {
+                    x.map_err(|e| e.to_string())?;
+                }
+                for &t in targets.iter().take(2) {
+                    rdr.seek(&fastq::Position::new(r.recs[t].line, r.recs[t].byte)).map_err(|e| e.to_string())?;
+                    let _ = rdr.next();
+                }
+                let cap0 = rdr.verif_capacity();
+                for &t in &targets {
+                    rdr.seek(&fastq::Position::new(r.recs[t].line, r.recs[t].byte)).map_err(|e| e.to_string())?;
+                    crate::alloc::arm();
+                    let ok = match rdr.next() {
+                        Some(Ok(rec)) => {
+                            std::hint::black_box(rec.seq().len() + rec.qual().len());
+                            rec.head() == &r.recs[t].head[..]
+                        }
+                        _ => false,
+                    };
+                    let (a, re, _) = crate::alloc::disarm();
+                    allocs += a + re;
+                    if !ok {
+                        wrong += 1;
+                    }
+                }
+                Ok((allocs, rdr.verif_capacity() != cap0, wrong))
+            }
+        }
+    });
+    match res {
+        Err(c) => crate::m_basic::caught_violation(rep, &c, "reading after seek", j),
+        Ok(Err(m)) => rep.violation(&format!("{}-read-or-seek-failed", fmt.name()), format!("a well-formed input could not be read or sought: {}", m), j),
+        Ok(Ok((allocs, cap_changed, wrong))) => {
+            rep.map("mode", &format!("{}:next-after-seek", fmt.name()));
+            rep.add("measured_records", lookups as u64);
+            rep.add("reads_after_seek_measured", lookups as u64);
+            if allocs > 0 {
+                rep.violation(
+                    &format!("{}-next-after-seek-allocates", fmt.name()),
+                    format!("{} allocator calls in {} reads that each followed a seek to a record read before", allocs, lookups),
+                    j.clone(),
+                );
+            }
+            if cap_changed {
+                rep.violation(&format!("{}-capacity-changed-after-seek", fmt.name()), "the buffer capacity changed during random access".into(), j.clone());
+            }
+            if wrong > 0 {
+                rep.count("other_property_deviation");
+            }
+            let mut h = Fnv::new();
+            h.bytes(&input).u64(cap as u64).u64(18_000);
+            rep.nontrivial.insert(h.finish());
+        }
+    }
+}
+
 pub fn c18(ctx: &Ctx, rep: &mut Report) {
     let mut idx = ctx.only.unwrap_or(0);
     loop {
@@ -538,6 +667,14 @@ pub fn c18(ctx: &Ctx, rep: &mut Report) {
         ctx.begin(idx);
         let mut rng = Rng::derive(&[ctx.seed, ctx.shard, idx, 18]);
         let fmt = if idx % 2 == 0 { Fmt::Fasta } else { Fmt::Fastq };
+        if !ctx.miri && (idx % 16 == 8 || idx % 16 == 9) {
+            c18_after_seek(ctx, rep, idx, fmt, &mut rng);
+            if ctx.only.is_some() {
+                break;
+            }
+            idx += 1;
+            continue;
+        }
         let sets = idx % 4 >= 2;
         // FASTA records with hundreds of sequence lines (every 8th FASTA case)
         let many_lines = fmt == Fmt::Fasta && idx % 16 >= 12 && !ctx.miri;
